@@ -16,7 +16,7 @@ P = "Webauthn.Props.C19."
 THEOREMS = [P + n for n in ("hierarchy", "vocabulary", "parsers_reg", "parsers_auth", "parsers_authdata", "parsers_cbor",
                             "semantic_auth", "never_returns_unverified", "semantic_reg", "fmt_none_in_hierarchy",
                             "fmt_unknown_in_hierarchy", "fmt_packed_in_hierarchy", "fmt_apple_in_hierarchy", "fmt_u2f_in_hierarchy",
-                            "fmt_android_key_in_hierarchy", "fmt_tpm_in_hierarchy", "fmt_safetynet_in_hierarchy")] + \
+                            "fmt_android_key_in_hierarchy", "fmt_tpm_in_hierarchy", "fmt_safetynet_in_hierarchy", "semantic_reg_closed")] + \
            ["Webauthn.sigPlan_fail"]
 LEAN_TARGETS = ["Props.C19", "Props.C19Formats"]
 AUDIT_IMPORTS = ["Props.C19Formats"]
